@@ -400,6 +400,20 @@ func (x *Exec) applyContract(st *State, ct *Contract, sig *types.Signature, name
 		}
 	}
 	ctx := &SpecCtx{x: x, st: st, names: nm, old: pre, pkg: pkgOfKey(x, ct)}
+	// configuration names that stand for an entry expression: its value here, which has to be one
+	// of the verified cases
+	for _, cs := range ct.Configs {
+		if cs.Alias == nil {
+			continue
+		}
+		v := x.evalInt(ctx, cs.Alias)
+		nm[cs.Name] = v
+		var alts []*Term
+		for _, c := range cs.Values {
+			alts = append(alts, b.Eq(v, b.Int(c)))
+		}
+		x.check(st, fmt.Sprintf("call:%s#%d:case:%s", cn.name, cn.ord, cs.Name), "", nil, b.Or(alts...), cs.Alias.String()+" is one of the verified configurations")
+	}
 	// default preconditions: non-nil pointer parameters
 	for i, n := range names {
 		if p, ok := args[i].(PtrV); ok && !ct.Nullable[n] {
@@ -1103,6 +1117,16 @@ func (x *Exec) userAsserts(st *State, fr *Frame, cn callName, after bool) {
 		x.assertFired[fr.contract.Key+"#"+fmt.Sprint(i)] = true
 		for k, av := range x.curArgs {
 			ctx.names[fmt.Sprintf("arg%d", k)] = av
+		}
+		if cn.name == "@return" && x.curRet != nil {
+			// the values being returned, under the result names of the signature
+			for k, ns := range resultNames(fr.fn.Signature) {
+				if k < len(x.curRet) {
+					for _, n := range ns {
+						ctx.names[n] = x.curRet[k]
+					}
+				}
+			}
 		}
 		if after && x.curCall != nil {
 			if rv, ok := fr.env[x.curCall]; ok {
